@@ -43,7 +43,7 @@ def run(ctx):
     def nontrivial(e):
         return e["post"]["exit"] == "cont" and [s["bal"] for s in e["post"]["ctx"]["svcs"]] != [s["bal"] for s in e["pre"]["ctx"]["svcs"]]
     hc.summarize(ctx, lines, nontrivial, "one evaluation = one step of a behaviour (real host call, full before/after context); non-trivial = a balance moved")
-    hc.judge(ctx, lines, "c08", "tokens not conserved / balance wrapped / wrong movement", 700 if quick else 2500, 5 if quick else 14)
+    hc.judge(ctx, lines, "c08", "tokens not conserved / balance wrapped / wrong movement", 320 if quick else 2500, 4 if quick else 14)
     if getattr(ctx, "selftest", False) or not quick:
         def corrupt(e):
             if e["post"]["exit"] == "cont" and hc.val(e["id"]) == 20 and hc.val(e["post"]["regs"][7]) == 0:
